@@ -661,56 +661,6 @@ theorem cookiedict_tables_pinned :
     (∀ n ∈ ["sid", "n", "a", "user_id", "session", "token", "getall", "__x__", "__"], n.toList ∉ cdAttrs) := by
   refine ⟨by decide, by decide, by decide +kernel, by decide, by decide, by decide +kernel, by decide +kernel⟩
 
-theorem fix_error (s enc : Str) (x : HErr) (hx : fix s enc = .error x) :
-    x = .unicodeError ∨ (codecOf enc = none ∧ x = .lookupError) := by
-  unfold fix at hx
-  split at hx
-  · cases hx; exact Or.inl rfl
-  · unfold decodeWith at hx
-    split at hx
-    · cases hx
-    · cases hcod : codecOf enc with
-      | none => rw [hcod] at hx; cases hx; exact Or.inr ⟨rfl, rfl⟩
-      | some cd =>
-        rw [hcod] at hx
-        cases cd with
-        | utf8 => simp only at hx; split at hx <;> cases hx; exact Or.inl rfl
-        | latin1 => cases hx
-        | ascii => simp only at hx; split at hx <;> cases hx; exact Or.inl rfl
-
-theorem decodeGo_error (enc : Str) (items acc : List (Str × Str)) (x : HErr) (hx : decodeGo enc items acc = .error x) :
-    x = .unicodeError ∨ (codecOf enc = none ∧ x = .lookupError) := by
-  induction items generalizing acc with
-  | nil => cases hx
-  | cons p r ih =>
-    obtain ⟨k, v⟩ := p
-    unfold decodeGo at hx
-    cases hv : fix v enc with
-    | error y => rw [hv] at hx; cases hx; exact fix_error v enc _ hv
-    | ok v' =>
-      rw [hv] at hx
-      cases hk : fix k enc with
-      | error y => rw [hk] at hx; cases hx; exact fix_error k enc _ hk
-      | ok k' => rw [hk] at hx; exact ih _ hx
-
-theorem cookiedict_getunicode_ok (c : CD) (henc : (codecOf c.enc).isSome = true) (name : Str) (d : Option Str := none) :
-    ∃ r, cdGetunicode c name d none = .ok r := by
-  unfold cdGetunicode
-  simp only [Option.getD_none]
-  cases hg : cdGetitem c name with
-  | error y =>
-    have : y = .keyError := by
-      unfold cdGetitem at hg; split at hg <;> cases hg; rfl
-    subst this; exact ⟨_, rfl⟩
-  | ok v =>
-    simp only
-    cases hf : fix v c.enc with
-    | ok s => exact ⟨_, rfl⟩
-    | error y =>
-      rcases fix_error v c.enc y hf with rfl | h
-      · exact ⟨_, rfl⟩
-      · rw [h.1] at henc; cases henc
-
 /-- **cookiedict_total**: on a `CookieDict` with a known `input_encoding` (every instance the framework creates:
 `cookiedict_tables_pinned`) item access raises nothing but `KeyError`, attribute access nothing but `AttributeError`
 (exactly for dunder names that normal lookup does not find), `get` and `getunicode` with the instance's encoding
